@@ -195,6 +195,23 @@ mksets (void)
           addset (w ? M_GOST : M_YESCRYPT, 0, "%s", ys);
         }
   }
+  /* yescrypt's pre-hash threshold (N/p >= 0x100 and floor(N/p)*r >= 0x20000) with a p that does not divide N: r just below, at
+     and just above p*2^17/N (48 MiB each) */
+  {
+    char ys[120];
+    for (int w = 0; w < 2; w++)
+      for (unsigned r = 95; r <= 97; r++)
+        {
+          vh_ysetting (ys, sizeof ys, w ? "$gy$" : "$y$", 12, r, 3, 0, "saltSALT");
+          addset (w ? M_GOST : M_YESCRYPT, 0, "%s", ys);
+        }
+    vh_ysetting (ys, sizeof ys, "$y$", 13, 48, 3, 0, "saltSALT");
+    addset (M_YESCRYPT, 0, "%s", ys);
+    vh_ysetting (ys, sizeof ys, "$y$", 12, 32, 1, 1, "saltSALT");      /* and a t field at a size that pre-hashes */
+    addset (M_YESCRYPT, 0, "%s", ys);
+    vh_ysetting (ys, sizeof ys, "$y$", 12, 32, 1, 2, "saltSALT");
+    addset (M_YESCRYPT, 0, "%s", ys);
+  }
   /* salt-length sweeps at the cheapest cost: every length of the range each method accepts (and just beyond) */
   for (int l = 1; l <= 325; l += (l < 130 ? 1 : 5))      /* 328 and more: refused since fixed defect F1, hashed (with an overflow) by 4.4.33 */
     {
